@@ -178,7 +178,8 @@ def main():
             axs = [x for x in axs if x != '<none>']
             # the standard library's own axiomatisation of the kernel's primitive integers / floats (reached through the C05
             # float model) is named in the trusted base; anything else is not
-            foreign = [x for x in axs if not (x.startswith('Coq.Numbers.Cyclic.Int63.') or x.startswith('Coq.Floats.'))]
+            okp = ['Coq.Numbers.Cyclic.Int63.', 'Coq.Floats.'] + list(P.get('coqchk_allowed_prefixes', []))
+            foreign = [x for x in axs if not any(x.startswith(q) for q in okp)]
             chk['axioms'] = axs
             chk['unsafe'] = [g.strip() for g in m.groups()[1:]]
             if foreign:
